@@ -190,14 +190,20 @@ def range_rules():
     r.add("R8.auto.pos", r"\bauto pos = m_end;", "viter pos = self->m_end;")
     r.add("R3.it.decl", r"--pos;", "viter_dec(&pos);")
     r.add("R3.it.derefl", r"\breturn \(\*\(pos\)\);", "return viter_deref(&pos);")
+    r.add("R3.it.prev", r"\breturn \(\*std::prev\((m_begin|m_end)\)\);", r"{ viter verif_prev = viter_prev(self->\1); return viter_deref(&verif_prev); }")
+    r.add("R3.it.next", r"\breturn \(\*std::next\((m_begin|m_end)\)\);", r"{ viter verif_next = viter_next(self->\1); return viter_deref(&verif_next); }")
     r.add("R4.sib.empty", r"(?<![\w.>])empty\(\)", "Bidir_Range_empty(self)")
     return r
 
 
 def detail_rules():
-    r = base_rules()
+    r = Rules("stl-detail")
+    r.add("R6.size_type", r"\btypename \w+::size_type\b", "size_t")
+    r.extend(base_rules())
     r.add("R8.auto.itr", r"\bauto itr = container\.begin\(\);", "viter itr = vseq_begin(container);", min_fire=1)
-    r.add("R8.auto.end", r"\bauto end = container\.end\(\);", "viter end = vseq_end(container);", min_fire=1)
+    r.add("R8.auto.end", r"\bauto end = container\.end\(\);", "viter end = vseq_end(container);")
+    r.add("R9.csize", r"\bcontainer\.size\(\)", "vseq_size(container)")
+    r.add("R9.cempty", r"\bcontainer\.empty\(\)", "vseq_empty(container)")
     r.add("R9.distance", r"\bstd::distance\(itr, end\)", "viter_distance(&itr, &end)")
     r.add("R9.advance", r"\bstd::advance\(itr, pos\);", "viter_advance(&itr, pos);")
     r.add("R9.insert", r"\bcontainer\.insert\(itr, v\);", "vseq_insert(container, itr, v);")
